@@ -709,8 +709,11 @@ Example out_clean_nonvacuous :
          {| r_out := rel ["."; "lnk"; ".."; "lnk"; "sub"; "."]; r_out_meta := rel ["doc"]; r_exclude_dir := [];
             r_graph_dir := None; r_src := [rel ["src"]]; r_media := None; r_css := None; r_favicon := None;
             r_mathjax := None; r_page_dir := None; r_incl_src := true; r_graph := false; r_search := false;
-            r_externalize := false |}) = [s "elsewhere"; s "real"; s "sub"].
-Proof. split; [repeat constructor | vm_compute; reflexivity]. Qed.
+            r_externalize := false |}) = [s "elsewhere"; s "lnk"; s "sub"].
+Proof.
+  split; [|vm_compute; reflexivity].
+  unfold links_clean. apply Forall_cons; [reflexivity | apply Forall_nil].
+Qed.
 
 Example no_source_deleted_nonvacuous :
   refuse w_cfg = false /\ In [s "proj"; s "src"] (srcs w_cfg) /\
